@@ -20,6 +20,10 @@ class OffLattice(Exception):
     pass
 
 
+class TileAddressedByAnIndexObjectDiffers(Exception):
+    pass
+
+
 def _reg(roi):
     ry, rx = roi
     return [idx(ry.start), idx(ry.stop), idx(rx.start), idx(rx.stop)]
@@ -33,6 +37,14 @@ def _tables(gbt, d, crops, parent):
     chunks = [[idx(v) for v in ch] for ch in t.chunks]
     regions = [[_reg(t[r, c]) for c in range(nx)] for r in range(ny)]
     neg = [[_reg(t[r - ny, c - nx]) for c in range(nx)] for r in range(ny)]
+    # a tile may be addressed by a (row, col) tuple or by an index OBJECT (iyx_(row, col), ixy_(col, row)): same tile, same answers
+    from odc.geo.types import ixy_, iyx_
+    for r in range(ny):
+        for c in range(nx):
+            for ix in (iyx_(r, c), ixy_(c, r)):
+                if _reg(t[ix]) != regions[r][c] or tuple(t.tile_shape(ix).yx) != tuple(t.tile_shape((r, c)).yx) \
+                        or tuple(gbt.chunk_shape(ix).yx) != tuple(gbt.chunk_shape((r, c)).yx) or gbt[ix] != gbt[r, c]:
+                    raise TileAddressedByAnIndexObjectDiffers(f"{ix}")
     tshape = [[[idx(v) for v in t.tile_shape((r, c)).yx] for c in range(nx)] for r in range(ny)]
     cshape = [[[idx(v) for v in gbt.chunk_shape((r, c)).yx] for c in range(nx)] for r in range(ny)]
     if cshape != tshape or [list(map(idx, ch)) for ch in gbt.chunks] != chunks or tuple(gbt.shape.yx) != (ny, nx):
@@ -175,7 +187,9 @@ def run_blocks(case):
         if case["fillarg"]:
             kw["fill_value"] = case["fillarg"][0]
         if not blocks:
-            kw["dtype"] = dtype  # with no block at all the assembler cannot know the dtype
+            # with no block at all the assembler cannot know the dtype: the caller names one that can hold the fill value
+            kw["dtype"] = np.result_type(dtype, np.min_scalar_type(case["fillarg"][0])) if case["fillarg"] else dtype
+            dtype = np.dtype(kw["dtype"])
         yx = (slice(w[0], w[1]), slice(w[2], w[3]))
         # the assembler's own description of the mosaic, and its other ways of naming a window, agree with the plain extract
         if blocks and tuple(asm.shape) != prefix + (H, W) + postfix:
